@@ -74,6 +74,49 @@ def classify(T, written, got):
     return "same" if got == written else "different"
 
 
+def tz_cases(arg):
+    """Run in a NEW interpreter whose local time zone (TZ) is not UTC: timestamps of every kind are exported to Avro and
+    read back; the instant must not depend on where the exporting process runs."""
+    import time
+
+    import fastavro
+    from flow.record import RecordDescriptor
+    from flow.record.adapter.avro import AvroReader, AvroWriter
+
+    if hasattr(time, "tzset"):
+        time.tzset()
+    tmp = common.scratch("c19tz")
+    D = RecordDescriptor("av/tz", [("varint", "n"), ("datetime", "f")])
+    vals = [v for l, v in gen.value_classes()["datetime"] if v is not None]
+    out = []
+    for v in vals:
+        p = os.path.join(tmp, "o.avro")
+        if os.path.exists(p):
+            os.remove(p)
+        case = {"T": "datetime", "c": "fits", "probe": "value", "layout": "alone", "outcome": "?", "probe_in_file": True, "good_records_intact": True, "std_reader_opens": True,
+                "descriptor_carried": True, "exc": "none", "value": repr(v)[:50], "tz": arg}
+        try:
+            w = AvroWriter(p)
+            w.write(D(99, v, _generated=gen.GEN))
+            w.flush()
+            w.close()
+            rd = AvroReader(p)
+            lib = list(rd)
+            rd.close()
+            with open(p, "rb") as fh:
+                std = list(fastavro.reader(fh))
+            o1, o2 = classify("datetime", v, lib[0].f), classify("datetime", v, std[0]["f"])
+            case["outcome"] = o1 if o1 == o2 or o2 in ("same", "single", "utc") else "different"
+            g = lib[0]._generated
+            if g is None or g.astimezone(UTC).replace(tzinfo=None) != gen.GEN.astimezone(UTC).replace(tzinfo=None):
+                case["good_records_intact"] = False
+        except Exception as e:
+            case["outcome"], case["exc"] = "refused", type(e).__name__ + ":" + str(e)[:60]
+            case["probe_in_file"] = False
+        out.append(case)
+    return out
+
+
 def run(tier):
     import fastavro
     from flow.record import RecordDescriptor, RecordReader, RecordWriter
@@ -107,9 +150,10 @@ def run(tier):
         goodD = base_desc if mapped_ok or probe_kind != "value" else G
 
         def good(i):
+            # the reserved fields carry information too: they must come back with the record
             if goodD is G:
-                return G(i, "g%d" % i, _generated=gen.GEN)
-            return D(i, None, _generated=gen.GEN)
+                return G(i, "g%d" % i, _generated=gen.GEN, _source="src%d" % i, _classification="cls")
+            return D(i, None, _generated=gen.GEN, _source="src%d" % i, _classification="cls")
 
         w = AvroWriter(p)
         refused = False
@@ -162,6 +206,13 @@ def run(tier):
         want_good = [i + 1 for i in range(good_before)] + [10 + i for i in range(good_after)]
         case["probe_in_file"] = 99 in ns
         case["good_records_intact"] &= [n for n in ns if n != 99] == want_good and [int(r.n) for r in lib if int(r.n) != 99] == want_good
+        for r in lib:
+            if int(r.n) != 99:
+                case["good_records_intact"] &= (r._source == "src%d" % int(r.n) and r._classification == "cls" and r._generated is not None
+                                                and r._generated.astimezone(UTC).replace(tzinfo=None) == gen.GEN.astimezone(UTC).replace(tzinfo=None))
+        for r in std:
+            if r.get("n") != 99:
+                case["good_records_intact"] &= r.get("_source") == "src%d" % r.get("n") and r.get("_classification") == "cls" 
         if refused:
             case["outcome"] = "refused"
             if not want_good:
@@ -191,6 +242,59 @@ def run(tier):
                 continue   # a refused FIRST record fixes the writer's descriptor: later records of another type are refused too (with an error: allowed)   # no record with a digest field can be written at all, so there are no good records to put around the probe
             cases.append(history(T, c, v, "value", layout))
             ctx.case((T, c, repr(v)[:30], layout))
+    # the very FIRST record offered is refused for its value; the records that follow are of another type: they are either
+    # refused too or written under their OWN schema with their values -- never under the refused record's
+    def after_refused_first(n_other):
+        uniq[0] += 1
+        p = os.path.join(tmp, "o.avro")
+        if os.path.exists(p):
+            os.remove(p)
+        Dr = RecordDescriptor("av/r%d" % (uniq[0] % 7), [("varint", "n"), ("uint32", "f")])
+        Oo = RecordDescriptor("av/o%d" % (uniq[0] % 7), [("varint", "n"), ("string", "g")])
+        case = {"T": "uint32", "c": "beyond32", "probe": "after-refused-first", "layout": "first", "outcome": "?", "probe_in_file": False, "good_records_intact": True, "std_reader_opens": True,
+                "descriptor_carried": True, "exc": "none", "value": "2**31 then %d records of another type" % n_other}
+        w = AvroWriter(p)
+        first_refused, accepted = False, []
+        try:
+            w.write(Dr(99, 2**31, _generated=gen.GEN))
+        except Exception:
+            first_refused = True
+        for i in range(1, n_other + 1):
+            try:
+                w.write(Oo(i, "g%d" % i, _generated=gen.GEN))
+                accepted.append(i)
+            except Exception as e:
+                case["exc"] = type(e).__name__ + ":" + str(e)[:60]
+        try:
+            w.flush()
+            w.close()
+        except Exception as e:
+            case["exc"] = "close: " + type(e).__name__
+        if not first_refused:
+            case["outcome"] = "different"          # 2**31 does not fit a 32-bit Avro int
+        elif not accepted:
+            case["outcome"] = "refused"
+        else:
+            try:
+                rd = AvroReader(p)
+                lib = list(rd)
+                ok = rd.desc.name == Oo.name and tuple(rd.desc.get_field_tuples()) == tuple(Oo.get_field_tuples()) and [(int(r.n), str(r.g)) for r in lib] == [(i, "g%d" % i) for i in accepted]
+                rd.close()
+                with open(p, "rb") as fh:
+                    ok &= [(r["n"], r["g"]) for r in fastavro.reader(fh)] == [(i, "g%d" % i) for i in accepted]
+                case["outcome"] = "own-schema" if ok else "different"
+            except Exception as e:
+                case["outcome"], case["exc"] = "different", "read: " + type(e).__name__ + ":" + str(e)[:60]
+        return case
+
+    # the same timestamps exported by processes that live in other time zones
+    for tzname in ("Asia/Kolkata", "America/Los_Angeles"):
+        for c in common.in_fresh_process("c19", "tz_cases", tzname, {"TZ": tzname}):
+            cases.append(c)
+            ctx.case(("tz", tzname, c["value"]))
+    for n_other in (1, 3):
+        cases.append(after_refused_first(n_other))
+        ctx.case(("after-refused-first", n_other))
     for T in ("varint", "string", "path"):
         for kind in ("second-same-name", "second-other-name"):
             for layout in ("middle", "last"):
